@@ -12,7 +12,6 @@ import (
 	"google.golang.org/protobuf/reflect/protoreflect"
 	"google.golang.org/protobuf/zverif/corpus"
 	"google.golang.org/protobuf/zverif/gen"
-	"google.golang.org/protobuf/zverif/mcase"
 	"google.golang.org/protobuf/zverif/model"
 	"google.golang.org/protobuf/zverif/ops"
 	"google.golang.org/protobuf/zverif/pbt"
@@ -54,13 +53,13 @@ type oneofCase struct {
 }
 
 func checkOneof(c oneofCase) error {
-	md := mcase.Desc(c.Type)
-	m := mcase.New(c.Type, c.Dynamic)
+	m := newMessage(c.Type, c.Dynamic)
+	md := m.Descriptor() // (a derived descriptor is only identical to itself through the message)
 	cur := &model.Msg{}
 	for i, st := range c.Steps {
 		switch st.Kind {
 		case "merge":
-			src := mcase.New(c.Type, c.Dynamic)
+			src := m.New()
 			if err := model.Apply(src, st.Src, nil); err != nil {
 				return fmt.Errorf("harness: %v", err)
 			}
@@ -127,8 +126,12 @@ func TestOneofHistory(t *testing.T) {
 		Name: "oneof-history",
 		Rule: "types: modern linked types with a real oneof of >= 2 members (generated or dynamicpb); 2..20 steps: reflection ops on oneof members (set incl. zero values, mutable, clear of active and inactive members), proto.Merge from a message with a drawn member, Merge-decoding of a wire with 1..4 members in drawn order. non-trivial = the active member changes >= 2 times incl. once via merge or decode",
 		Draw: func(t *rapid.T) oneofCase {
-			c := oneofCase{Type: rapid.SampledFrom(oneofTypes).Draw(t, "type"), Dynamic: rapid.IntRange(0, 3).Draw(t, "dyn") == 0, Lazy: rapid.Bool().Draw(t, "lazy")}
-			md := mcase.Desc(c.Type)
+			typ := pairName
+			if rapid.IntRange(0, 4).Draw(t, "pair?") > 0 {
+				typ = rapid.SampledFrom(oneofTypes).Draw(t, "type")
+			}
+			c := oneofCase{Type: typ, Dynamic: rapid.IntRange(0, 3).Draw(t, "dyn") == 0, Lazy: rapid.Bool().Draw(t, "lazy")}
+			md := descOf(c.Type)
 			cur := &model.Msg{}
 			n := rapid.IntRange(2, 20).Draw(t, "steps")
 			for i := 0; i < n; i++ {
@@ -165,7 +168,7 @@ func TestOneofHistory(t *testing.T) {
 		},
 		Check: checkOneof,
 		NonTrivial: func(c oneofCase) bool {
-			md := mcase.Desc(c.Type)
+			md := descOf(c.Type)
 			cur := &model.Msg{}
 			switches, viaCodec := 0, false
 			active := func() string {
@@ -234,7 +237,7 @@ func inner(doc []byte) []byte {
 
 func checkDocs(c docCase) error {
 	build := func(f model.Field) protoreflect.Message {
-		m := mcase.New(c.Type, c.Dynamic)
+		m := newMessage(c.Type, c.Dynamic)
 		model.Apply(m, &model.Msg{Fields: []model.Field{f}}, nil)
 		return m
 	}
@@ -250,13 +253,13 @@ func checkDocs(c docCase) error {
 	}
 	ju := protojson.UnmarshalOptions{AllowPartial: true}
 	for _, single := range [][]byte{ja, jb} {
-		if err := ju.Unmarshal(single, mcase.New(c.Type, c.Dynamic).Interface()); err != nil {
+		if err := ju.Unmarshal(single, newMessage(c.Type, c.Dynamic).Interface()); err != nil {
 			return fmt.Errorf("protojson rejects a document naming one oneof member: %v (%s)", err, single)
 		}
 	}
 	if len(inner(ja)) > 0 && len(inner(jb)) > 0 {
 		both := []byte("{" + string(inner(ja)) + "," + string(inner(jb)) + "}")
-		if err := ju.Unmarshal(both, mcase.New(c.Type, c.Dynamic).Interface()); err == nil {
+		if err := ju.Unmarshal(both, newMessage(c.Type, c.Dynamic).Interface()); err == nil {
 			return fmt.Errorf("protojson accepts a document naming two members of one oneof: %s", both)
 		}
 	}
@@ -271,13 +274,13 @@ func checkDocs(c docCase) error {
 	}
 	tu := prototext.UnmarshalOptions{AllowPartial: true}
 	for _, single := range [][]byte{ta, tb} {
-		if err := tu.Unmarshal(single, mcase.New(c.Type, c.Dynamic).Interface()); err != nil {
+		if err := tu.Unmarshal(single, newMessage(c.Type, c.Dynamic).Interface()); err != nil {
 			return fmt.Errorf("prototext rejects a document naming one oneof member: %v (%s)", err, single)
 		}
 	}
 	if len(bytes.TrimSpace(ta)) > 0 && len(bytes.TrimSpace(tb)) > 0 {
 		both := append(append(append([]byte(nil), ta...), '\n'), tb...)
-		if err := tu.Unmarshal(both, mcase.New(c.Type, c.Dynamic).Interface()); err == nil {
+		if err := tu.Unmarshal(both, newMessage(c.Type, c.Dynamic).Interface()); err == nil {
 			return fmt.Errorf("prototext accepts a document naming two members of one oneof: %s", both)
 		}
 	}
@@ -308,7 +311,7 @@ func TestTwoMemberDocs(t *testing.T) {
 		Rule: "two distinct members of one real oneof with generated values (zero values included: an explicitly present zero is still 'named'); the JSON documents use JSON names, proto names or one of each. non-trivial = one of the two members is a message/group or holds a zero value",
 		Draw: func(t *rapid.T) docCase {
 			c := docCase{Type: rapid.SampledFrom(docTypes).Draw(t, "type"), Dynamic: rapid.IntRange(0, 3).Draw(t, "dyn") == 0, Proto: rapid.Bool().Draw(t, "protonames"), Swap: rapid.Bool().Draw(t, "mixnames")}
-			md := mcase.Desc(c.Type)
+			md := descOf(c.Type)
 			var ods []protoreflect.OneofDescriptor
 			for i := 0; i < md.Oneofs().Len(); i++ {
 				if od := md.Oneofs().Get(i); !od.IsSynthetic() && od.Fields().Len() >= 2 {
